@@ -73,10 +73,13 @@ type Entry struct {
 	AnsweredAt time.Duration
 	Applied    bool
 	ClientGone bool // produce: applied after the client had closed the connection the request came on
-	RespBytes  int
-	Held       bool // waiting for a group barrier
-	sc         *srvConn
-	done       bool
+	// OffsetCommit answered "err@p<idx>:<code>": the partitions of the request that got an error code of their own and
+	// were NOT recorded (Applied then tells that the others were)
+	PartErr   map[TP]int16
+	RespBytes int
+	Held      bool // waiting for a group barrier
+	sc        *srvConn
+	done      bool
 	// Produce details
 	Batches   []refwire.Batch
 	BaseOff   int64
@@ -482,6 +485,7 @@ func (c *Cluster) writeMsg(e *Entry, msg protocol.Message) {
 //	""  / "ok"          normal answer computed from the cluster state
 //	"err:<code>"        the API's error answer with that code in its (first/main) error field, nothing applied
 //	"err@<field>:<code>" error placed in a specific field (API dependent)
+//	                    OffsetCommit: "err@p<idx>:<code>" rejects only the idx-th partition entry of the request (see Entry.PartErr)
 //	"drop"              close the connection without answering, request not applied
 //	"apply-drop"        apply the request, then close the connection without answering
 //	"cut:<k>"           normal answer, but only k bytes of the response frame are delivered, then the connection closes
